@@ -1122,11 +1122,15 @@ func (e *Engine) execBlock(fi *fnInfo, b *ssa.BasicBlock, start int, st *State,
 			e.refine(f, cv, in.Cond, false)
 			if !t.dead {
 				t.note("%s: %s is true", e.prog.Position(in.Pos()), condString(in.Cond))
-				edge(t, b.Succs[0])
+				for _, s := range e.splitEnumTables(t) {
+					edge(s, b.Succs[0])
+				}
 			}
 			if !f.dead {
 				f.note("%s: %s is false", e.prog.Position(in.Pos()), condString(in.Cond))
-				edge(f, b.Succs[1])
+				for _, s := range e.splitEnumTables(f) {
+					edge(s, b.Succs[1])
+				}
 			}
 			return
 		case *ssa.Jump:
